@@ -183,6 +183,7 @@ CAUSES = [
     "cancel",
     "tx_error",
     "requires_encryption",
+    "write_raise",
 ]
 
 
@@ -213,6 +214,11 @@ def cause_event(cause: str, trigger: dict, phase: str, rng: random.Random | None
         return [{"at": t, "do": "poke", "what": "cancel", "target": "a0", "phase": phase, "cause": cause}]
     if cause == "tx_error":
         return [{"at": t, "do": "fault", "kind": "tx_error", "err": "epipe", "cause": cause}]
+    if cause == "write_raise":
+        # from now on transport.write() raises synchronously (uvloop-style closed handler): the next thing the library
+        # writes - a keepalive ping, a request, a reply to a device request - fails inside the writing call
+        exc = (rng.choice(["RuntimeError", "OSError"]) if rng else "RuntimeError")
+        return [{"at": t, "do": "fault", "kind": "write_raises", "always": True, "exc": exc, "cause": cause}]
     if cause == "stall":
         return [{"at": t, "do": "fault", "kind": "stall", "d": 200.0, "phase": phase, "cause": cause}]
     raise ValueError(cause)
